@@ -33,7 +33,10 @@ def cursor_sweep(w, h, cfgs):
 class Prop(PropBase):
     ID = "C08"
     LEAN_MODULES = ["Tpp.Props.C08"]
-    REQUIRED = ["Tpp.Props.C08." + n for n in ("C08_agree_run", "C08_unknown_when_dependent")]
+    REQUIRED = ["Tpp.Props.C08." + n for n in ("C08_agree_run", "C08_fresh", "C08_unknown_when_dependent",
+                                                "C08_last_column_is_terminal_dependent", "recordTrue_of_agree")] + \
+               ["Tpp.agree_step", "Tpp.agree_run"]
+    LEAN_MODULES = ["Tpp.Props.C08"]
     RULE = ("exhaustive: all (from,to) cursor pairs on 4x3 (quick) and 5x5 (thorough) grids after each of {unknown, known, "
             "wrote-last-column, restored, resized-with-saved-position, written}; random histories of every built-in "
             "manipulator, writes and size changes with edge-biased positions; the state record is read through a "
